@@ -75,8 +75,8 @@ CritOf(c) ==
            op == SubSeq(c.s, 1, ol)
            rest == SubSeq(c.s, ol + 1, Len(c.s))
        IN IF ol > 0
-          THEN (IF NumericText(rest).ok /\ op \in {<<60>>, <<62>>, <<61>>, <<60, 61>>, <<62, 61>>, <<60, 62>>}
-                THEN [k |-> "cmp", op |-> op, q |-> NumericText(rest).q] ELSE [k |-> "none"])
+          THEN (IF ExpNumericText(rest).ok /\ op \in {<<60>>, <<62>>, <<61>>, <<60, 61>>, <<62, 61>>, <<60, 62>>}
+                THEN [k |-> "cmp", op |-> op, q |-> ExpNumericText(rest).q] ELSE [k |-> "none"])
           ELSE IF rest = <<>> THEN [k |-> "none"]
           ELSE IF \E i \in 1..Len(rest) : rest[i] \in {42, 63} THEN
                (IF \E i \in 1..Len(rest) : rest[i] \in {91, 93} THEN [k |-> "none"] ELSE [k |-> "wild", p |-> rest])
